@@ -49,7 +49,7 @@ PROPS["C33"] = {
              "Gap filling is checked on a 192-byte buffer (gaps up to 63 bytes = every gap VmB can produce).",
     "outside": "inputs whose result would overflow usize (the property excludes them); offset >= 2^63 (its negation as isize overflows in the dev profile); other VM alignment constants",
     "assumptions": COMMON_ASSUME + ["alignment is a power of two within the VM's [MIN_ALIGNMENT, MAX_ALIGNMENT]", "region and offset are multiples of the known alignment (the function's debug assertions / meaning of known_alignment)",
-                                    "region <= usize::MAX - MAX_ALIGNMENT, val + align - 1 does not overflow, offset < 2^63"],
+                                    "region <= usize::MAX - MAX_ALIGNMENT and region + gap does not cross 2^63 (Address + isize is signed, overflow-checked arithmetic), val + align - 1 does not overflow, offset < 2^63"],
     "level_text": "Bounded symbolic execution (Kani/CBMC) of the alignment and rounding functions at full 64-bit width with symbolic power-of-two alignments: results compared with the arithmetic specification (multiple-of, least/greatest, gap < alignment, gap + size <= get_maximum_aligned_size), gap filling compared byte by byte on a real buffer. Loop-free code, so within the stated preconditions the verdict covers every input for the three VM instantiations.",
     "level_note": "Trusted: Kani/CBMC/cadical and the mask-form arithmetic oracles; VM constants limited to the three instantiations.",
 }
@@ -114,6 +114,114 @@ PROPS["C21"] = {
     "level_note": "Trusted: Kani/CBMC/cadical and the per-bit oracle loop.",
 }
 
+PROPS["C26"] = {
+    "enc": ["FreeList::alloc", "alloc_from_unit", "free", "size", "initialize_heap", "add_to_free", "__alloc", "__split", "__coalesce", "__remove_from_free",
+            "get/set_next/prev/size/free", "get_left", "get_right", "is_coalescable", "set_uncoalescable", "IntArrayFreeList::{new, from_parent, table, table_mut}"],
+    "sym": "single list (6 or 3 units, one initial run): 3 operations, each alloc(n in 1..=6) or free(any live run), then free-all and re-allocate; "
+           "parent+child lists sharing a 6-unit table, grain 1..=6: 3 operations on either list out of alloc(n), alloc_from_unit(n,u), free(run), set_uncoalescable(u)",
+    "bound": "Lists of <= 6 units, histories of 3 operations (+ free-all epilogue), <= 2 heads; unwind 8 with unwinding assertions. After every operation the real table is walked and must tile [0,units) consistently with the harness's live-run map.",
+    "outside": "longer lists/histories; RawMemoryFreeList shares every FreeList method (its growth path is C27); alloc-failure completeness is checked for the single-list configuration only",
+    "assumptions": COMMON_ASSUME + ["free is called on live runs only (its debug assertion)", "alloc_from_unit and set_uncoalescable are applied to the first unit of a run (as Map64 does)"],
+    "level_text": "Bounded symbolic execution (Kani/CBMC) of the real free-list code over every 3-operation history on lists of <= 6 units (single list, and parent+child lists sharing a table with symbolic grain and uncoalescable marks): allocated runs disjoint and in range, size() exact, alloc fails only without a fitting free run, the table always tiles the list consistently with the live runs, free runs fully coalesce, and freeing everything restores one allocatable run.",
+    "level_note": "Trusted: Kani/CBMC/cadical and the ghost live-run map of the harness.",
+}
+
+PROPS["C27"] = {
+    "enc": ["RawMemoryFreeList::new", "grow_freelist", "grow_list_by_blocks", "raise_high_water", "current_capacity", "units_per_block", "units_in_first_block", "size_in_pages",
+            "mmap (OS::dzmmap stubbed)", "FreeList::{alloc, set_sentinel, set_size, add_to_free}"],
+    "sym": "units 1..=1534 (table of 1..=3 pages), pages_per_block 1..=2, grain, two growth steps (multiples of the grain, <= 4 grains each) plus one over-limit request; limit = base + pages(size_in_pages) as Map64::create_parent_freelist computes it",
+    "bound": "Tables of <= 3 pages in a real page-aligned buffer, heads = 1, <= 2 successful growth steps, <= 8 allocations afterwards; unwind 10.",
+    "outside": "larger tables, heads > 1, more growth steps",
+    "assumptions": COMMON_ASSUME + ["E5: OS::dzmmap stubbed to record (start, bytes) and succeed", "growth sizes are multiples of the grain (grow_list_by_blocks' debug assertion)"],
+    "level_text": "Bounded symbolic execution (Kani/CBMC) of the real RawMemoryFreeList growth path over all unit counts whose table needs <= 3 pages (including table sizes that are not a multiple of the block size), block sizes, grains and two-step growth sequences: growth within the maximum succeeds, beyond it is refused, every mapping lies inside [base, limit) contiguously, and every grown unit can be allocated.",
+    "level_note": "Trusted: Kani/CBMC/cadical, the dzmmap stub.",
+}
+
+PROPS["C31"] = {
+    "enc": ["SFTSpaceMap::new", "has_sft_entry", "addr_to_index", "index_to_space_range", "Map64::new", "insert", "get_descriptor_for_address", "space_index", "is_space_start",
+            "SpaceDescriptor::create_descriptor_from_heap_range/get_index", "VMLayout::new_64bit"],
+    "sym": "address over the full 0..=usize::MAX; inserted space index 1..=15 and extent",
+    "bound": "Index arithmetic only, default 64-bit layout: no loop over addresses (symbolic), one inserted space.",
+    "outside": "table contents of the SFT maps (SFTRefStorage = portable_atomic::AtomicU128, inline asm, not executable by Kani), SFTDenseChunkMap/SFTSparseChunkMap, is_in_mmtk_spaces end-to-end (needs live spaces)",
+    "assumptions": COMMON_ASSUME + ["default 64-bit VMLayout"],
+    "level_text": "Bounded symbolic execution (Kani/CBMC) of the real SFT space-map and Map64 index arithmetic for every 64-bit address: a lookup that passes has_sft_entry indexes inside the table, entries cover exactly spaces 1..=15, Map64::get_descriptor_for_address answers every address without panicking with the inserted descriptor or UNINITIALIZED, and both maps agree on the space index.",
+    "level_note": "Kernel-level claim: index agreement and totality, not table contents.",
+}
+
+PROPS["C35"] = {
+    "enc": ["mi_bin", "mi_bin_from_size", "mi_wsize_from_size", "new_empty_block_lists (real table via hook)", "get_maximum_aligned_size", "align_allocation_no_fill"],
+    "sym": "size 0..=MAX_BIN_SIZE (symbolic, not enumerated), alignment 2^k in the VM's range, cell address (any word-aligned), offset; a second size for monotonicity; table index",
+    "bound": "All sizes and alignments for VmA (MIN 8/MAX 8) and VmB (MIN 4/MAX 64); the 49-entry table is the real one.",
+    "outside": "FreeListAllocator::init_block (needs a MarkSweepSpace with a page resource): the fresh-block cell list is not checked",
+    "assumptions": COMMON_ASSUME + ["padded request <= MAX_BIN_SIZE (larger requests go to the large object space)", "cells are word aligned"],
+    "level_text": "Bounded symbolic execution (Kani/CBMC) of the real size-class selection against the real table for every request size up to MAX_BIN_SIZE and every legal alignment: the bin is valid, its cell holds the worst-case padded request and the object as align_allocation places it, it is the smallest such class, bins are monotone in size, table sizes strictly increase.",
+    "level_note": "init_block's free-list construction is outside the claim.",
+}
+
+PROPS["C38"] = {
+    "enc": ["MemBalancerTrigger::compute_new_heap_limit", "on_pending_allocation", "get_current_heap_size_in_pages", "get_max_heap_size_in_pages", "can_heap_size_grow", "access_stats"],
+    "sym": "min <= max < 2^40 pages; live, extra_reserve, pending < 2^40; the four statistics and the four optional smoothing values as arbitrary IEEE doubles (NaN, infinities, zeros, negatives, each Some or None)",
+    "bound": "One computation from an arbitrary smoothing state (inductive step: the state a collection leaves behind is itself among the arbitrary states, and the heap size does not feed back). Harness (a) runs with Rust overflow checks off (release semantics), harness (b) with all checks on inside a physical envelope.",
+    "outside": "on_gc_start/release/end themselves (need &'static MMTK and Instant::now): the claim is the limit computation they funnel into; FixedHeapSizeTrigger (a constant)",
+    "assumptions": COMMON_ASSUME + ["min <= max (GCTriggerSelector::validate)", "page counts < 2^40", "(b) only: finite non-negative statistics, allocation rate <= 2^30 pages/s, collection rate >= 1 page/s"],
+    "level_text": "Bounded symbolic execution (Kani/CBMC, IEEE-754 float encoding) of the real MemBalancer limit computation with every statistic an arbitrary double: after a collection from any smoothing state the reported heap size is within [min, max]; inside a physical envelope the page sum additionally cannot overflow.",
+    "level_note": "CBMC's float-specific NaN/overflow side checks are ignored (not Rust semantics).",
+}
+
+PROPS["C17"] = {
+    "enc": ["attempt_to_forward", "spin_and_get_forwarded_object", "forward_object", "get_forwarding_status", "read_forwarding_pointer", "write_forwarding_pointer",
+            "forwarding_bits_offset_in_forwarding_pointer", "MetadataSpec::{load_atomic, store_atomic, compare_exchange_metadata}", "HeaderMetadataSpec / SideMetadataSpec accessors underneath"],
+    "sym": "initial forwarding state (00 / 10 held by another tracer / 11 with any pointer), all 64 object bytes (and 16 side-table bytes), the new copy address, the other tracer's copy address, and at every atomic access of the protocol whether and how another tracer interferes",
+    "bound": "Interference budget: other tracers win the race at most twice; a tracer holding BEING_FORWARDED publishes or clears within 2 further steps (progress assumption, needed for the spin loop to be bounded); unwind 8 with unwinding assertions. Three placements: bits+pointer in one header word, bits in a separate header byte, bits on the side (shared byte).",
+    "outside": "unbounded interference / fairness (the protocol is lock-free, not wait-free); weak-memory reordering (SC atomics); the N-thread composition argument (one thread vs. environment composes because the environment is exactly the rely relation) is a paper argument, not a solver result; the actual object copy (ObjectModel::copy is a harness stub counting calls)",
+    "assumptions": COMMON_ASSUME + ["H9: env_step runs before every atomic metadata access; rely relation R = {00->10, 10->11 with pointer, 10->00}, never while this thread holds 10, never from 11", "object addresses are non-null, 8-aligned and below 2^56 (the forwarding-word mask)"],
+    "level_text": "Bounded symbolic execution (Kani/CBMC) of the real forwarding protocol against symbolic interference injected before every atomic access (other tracers racing on the same object, as solver variables): the thread copies iff its own CAS moved 00->10, copies exactly once, publishes its copy; a thread that did not win never copies and returns exactly the pointer the winner published (or the original object if the winner declined); late tracers agree.",
+    "level_note": "Interleavings are encoded as rely-relation interference at the atomic-access hook points; SC atomics; budgeted interference.",
+}
+
+PROPS["C18"] = {
+    "enc": ["MarkState::test_and_mark", "ObjectBarrier::log_object", "VMLocalPinningBitSpec::{pin_object, unpin_object}", "MetadataSpec::{load_atomic, compare_exchange_metadata}",
+            "HeaderMetadataSpec::compare_exchange (sub-byte path)", "SideMetadataSpec::compare_exchange_atomic (sub-byte path)"],
+    "sym": "all object/side-table bytes, object index within the shared side byte (0..=7), and at every atomic access whether another thread performs the same transition and which value it leaves in every other bit of the same byte",
+    "bound": "At most 3 interfering steps per operation; unwind 6 with unwinding assertions; side placement (8 objects per byte) and in-header placement (field next to five other fields) for mark and log; pin/unpin with feature object_pinning.",
+    "outside": "ImmixSpace::attempt_mark and the LOS mark CAS (need a space object); unbounded interference; weak memory; the N-thread counting argument",
+    "assumptions": COMMON_ASSUME + ["H9 interference hook; rely: another thread may perform the same transition once and may rewrite all other bits of the byte arbitrarily", "nobody reverts the field during the operation"],
+    "level_text": "Bounded symbolic execution (Kani/CBMC) of the real mark / log / pin transitions against symbolic interference on the same byte: the operation reports success iff this thread's own CAS performed the transition, reports failure only if the field was already transitioned, leaves the field transitioned, and never writes stale neighbouring bits.",
+    "level_note": "Same encoding and limits as C17.",
+}
+
+PROPS["C22"] = {
+    "enc": ["SideMetadataSpec::find_prev_non_zero_value", "find_prev_non_zero_value_fast", "find_prev_non_zero_value_simple", "find_next_non_zero_value (+_fast, +_simple)", "scan_non_zero_values (+_fast)",
+            "find_last/first_non_zero_bit_in_metadata_bytes/bits", "scan_non_zero_bits_in_metadata_bytes/bits/word", "align_metadata_address", "contiguous_meta_address_to_address", "ranges::break_bit_range"],
+    "sym": "all bytes of a 3-byte table slice (24 one-bit regions of 8 bytes: the VO-bit shape), data address anywhere in the slice's data range including unaligned, search limit, mapped/unmapped",
+    "bound": "3-byte table window (24 regions), unwind 26 (+ per-loop bounds 5 on the byte loops) with unwinding assertions; byte and bit paths of the fast search (the 8-byte word path needs >= 8 aligned table bytes and is outside this bound).",
+    "outside": "the word-at-a-time path of the fast search (window of >= 8 bytes did not finish within the cap); widths other than 1 bit; searches that leave the window; metadata mapped for only part of the range",
+    "assumptions": COMMON_ASSUME + ["E1 base hook; E2: Address::load redirected to a static 64-byte buffer (array read); E3: Address::is_mapped answers from harness ranges (data range and table both mapped, or both unmapped)", "search range stays inside the window; scan ranges are region aligned"],
+    "level_text": "Bounded symbolic execution (Kani/CBMC) of the real search/scan entry points (fast path and the in-code naive cross-check) on a 3-byte bitmap with arbitrary contents, start address and limit, compared with an independent region-by-region oracle: same result / same visited regions in order, once each.",
+    "level_note": "Small window: byte/bit paths only.",
+}
+
+PROPS["C24"] = {
+    "enc": ["spec_defs::* constants (list regenerated from the source each run)", "side_metadata_offset_after", "SideMetadataSpec::upper_bound_offset", "metadata_address_range_size", "VM*Spec::{side_first, side_after, in_header}",
+            "set_vm_side_metadata_specs", "side_metadata_reserved_bytes", "total_side_metadata_bytes"],
+    "sym": "for each of the six VM specs: in header or on the side; declaration order of the side-resident local specs (symbolic permutation)",
+    "bound": "The whole finite placement space of the VM specs as solver variables; superset of all core specs (every plan's active set is a subset). 64-bit layout, default features.",
+    "outside": "per-plan spec sets are not read back from created plans (needs a live MMTK): the superset is checked instead, with one source-checked exemption (VM global spec vs. the two MallocSpace-only local specs, which no plan combines); 32-bit chunked layout",
+    "assumptions": COMMON_ASSUME + ["MarkSweep/MallocSpace sources do not mention the VM global log-bit spec (checked textually on every run; otherwise the exemption is dropped)", "mmap granularity 4 MiB (harness Mmapper)"],
+    "level_text": "Bounded symbolic execution (Kani/CBMC) over every VM side-metadata placement (in-header/side, any declaration order): all side specs any configuration can combine are pairwise disjoint as [offset, offset+range) and lie inside the reserved side-metadata range computed by the real layout code.",
+    "level_note": "Superset formulation; see outside-the-claim.",
+}
+
+PROPS["C34"] = {
+    "enc": ["ImmixSpace::get_next_available_lines", "Block::line_mark_table", "MetadataByteArrayRef::{new, get}", "Line::{get_index_within_block, next_nth, block, mark_lines_for_object, mark, is_marked}", "BlockState <-> u8 conversions"],
+    "sym": "all 32 line-mark bytes of a block, current and unavailable line state independently in 1..=127, search start line; object start/size within the block; every byte value for BlockState",
+    "bound": "One block of 32 lines (cargo feature immix_smaller_block: same code, smaller constant); unwind 34 with unwinding assertions. The two states are independent symbolic values, which covers every pair any GC history can produce, including after the 127->1 wrap.",
+    "outside": "the state update itself (line_mark_state increment/reset in ImmixSpace::prepare, copy to line_unavail_state in release) sits in functions that need a scheduler; Block::sweep; the default 128-line block (same code; did not finish within the cap)",
+    "assumptions": COMMON_ASSUME + ["E1 base hook", "verif_hole_search stores the two state bytes into a zeroed space object (the search reads nothing else from the space)"],
+    "level_text": "Bounded symbolic execution (Kani/CBMC) of the real Immix hole search for every line-mark table of a 32-line block and every pair of line states: the returned hole is the first maximal run of lines marked neither in the current nor the last full collection; mark_lines_for_object marks exactly the spanned lines; BlockState round-trips through its byte.",
+    "level_note": "Kernel-level claim for every state pair; the GC-history state machine is outside.",
+}
+
 NOT_APPLICABLE = {}
 _L = ("observable only on a live collector (MMTK instance, mmap'd heap, OS worker threads, VM call-backs); Kani has no thread/FFI model and a "
       "whole collection is outside any unwinding bound; the bit-level kernels are decided under ")
@@ -137,6 +245,11 @@ NOT_APPLICABLE.update({
     "C36": "TreadMill is four hashbrown HashSets behind a Mutex; DESIGN P10: two inserts and a remove do not finish symbolic execution in 400 s even with concrete keys",
     "C39": "DESIGN P11: 3 symbolic bytes through to_lowercase/parse/format! exceed 420 s; GCTriggerSelector::from_str compiles two regex::Regex",
 })
-# Claimed in DESIGN.md but not built yet: listed as not applicable until their check exists.
-for _p in ["C08", "C10", "C17", "C18", "C22", "C24", "C26", "C27", "C28", "C29", "C31", "C34", "C35", "C37", "C38"]:
-    NOT_APPLICABLE.setdefault(_p, "check planned in DESIGN.md section 3 but not built yet; not claimed until its harnesses are registered")
+# Planned in DESIGN.md section 3 but not claimed (reasons measured or stated in DESIGN.md section 8.6).
+NOT_APPLICABLE.update({
+    "C08": "kernel not built: find_object_from_internal_pointer / is_vo_bit_set_for_addr reduce to SideMetadataSpec::find_prev_non_zero_value, whose encoding only finishes on a 3-byte bitmap (C22: ~6 min per query); the object-size dimension on top of it did not fit the budget, and the space-level dispatch (SFT_MAP.get_checked(addr).is_mmtk_object, LOS page-wise variant) needs live spaces",
+    "C10": "the retry-loop kernel (Allocator::alloc_slow_inline) needs an AllocatorContext with Arc<Options> and Arc<GCTrigger>; Options::default() goes through env-var/String parsing (DESIGN P11: does not encode) and GCTrigger::new needs a boxed policy from Options; Space::acquire/poll need a space with a page resource",
+    "C28": "page resources need CommonPageResource + a VMMap and (FreeListPageResource) a RawMemoryFreeList table: the free-list table alone exhausts 16 GB per query unless every size is concrete (C26/C27), and MonotonePageResource::alloc_pages goes through the global MMAPPER/VM_MAP singletons and Mutex-protected state; BlockPageResource sits on BlockPool (DESIGN P17: 22 GB)",
+    "C29": "Map32 keeps two Vec<i32> link tables, a descriptor Vec and two IntArrayFreeLists behind a Mutex and calls the global SFT_MAP (InitializeOnce<Box<dyn SFTMap>>, AtomicU128 entries: inline asm not executable by Kani) on every free; the free-list component alone is at the memory limit for 6 units / 3 operations (C26), so histories over the composed structure are out of reach",
+    "C37": "DESIGN P19: the two-block / two-object formulation of ForwardingMetadata did not finish in 14 min at 5 GB (the bit-scan loop is unrolled to the global bound at every call site); the planned split formulation was not built in the available time",
+})
